@@ -167,7 +167,7 @@ Lemma acyclicb_rank : forall ds nodes,
   forall x m, has_history ds x = true -> In m (members_of ds x) -> has_history ds m = true ->
     (rank_of ds nodes m < rank_of ds nodes x)%nat.
 Proof.
-  intros ds nodes H Hall x m Hx Hm Hh. unfold acyclicb in H. rewrite forallb_forall in H.
+  intros ds nodes H Hall x m Hx Hm Hh. unfold acyclicb in H. cbv zeta in H. rewrite forallb_forall in H.
   specialize (H x (Hall x Hx)). rewrite Hx in H. cbn [negb orb] in H.
   rewrite forallb_forall in H. specialize (H m Hm). rewrite Hh in H. cbn [negb orb] in H.
   apply Nat.ltb_lt. exact H.
